@@ -12,11 +12,20 @@ def AtLeaf (ctx : ImplContext) (pfx : String) (d : Nat) (p : FieldContainer × F
 theorem pathMatches_self (s : String) : pathMatches s s = true := by
   simp [pathMatches]
 
+theorem childLineHint_not_from (ctx : ImplContext) (ca : ChildAttr) (h : TypeHint) (hk : ctx.kind.isFrom = false) :
+    childLineHint ctx ca h = h := by simp [childLineHint, hk]
+
+theorem cls_into_not_from {k : Kind} (h : k.cls = .into) : k.isFrom = false := by
+  unfold Kind.cls at h
+  cases hf : k.isFrom
+  · rfl
+  · simp [hf] at h
+
 /-- inside the initialiser of a child (depth `d`), a run of members that sit exactly at that child is consumed
     member by member — one line each, in order — and the loop stops at the first member that does not belong to the
     child (or at the end), leaving it for the enclosing level -/
 theorem loop_leaf_block (ctx : ImplContext) (named : Bool) (cp : ChildPath) (crc : Option ChildRenderContext) (d : Nat)
-    (pfx : String) (hpfx : cp.getStr (some d) = .ok pfx) (hint : TypeHint) :
+    (pfx : String) (hpfx : cp.getStr (some d) = .ok pfx) (hint : TypeHint) (hk : ctx.kind.isFrom = false) :
     ∀ (block : List (FieldContainer × Field)) (rest : List FieldContainer) (fuel : Nat) (frags : TS) (idx : Nat),
       block.length + 1 < fuel →
       (∀ p ∈ block, AtLeaf ctx pfx d p) →
@@ -44,7 +53,7 @@ theorem loop_leaf_block (ctx : ImplContext) (named : Bool) (cp : ChildPath) (crc
       have hn : block.length + 1 < n := by simpa using hf
       have hb' : ∀ q ∈ block, AtLeaf ctx pfx d q := fun q hq => hb q (List.mem_cons_of_mem _ hq)
       obtain ⟨hfd, hpath, ca, hca, hlen⟩ := hb p (List.mem_cons_self)
-      have ih := loop_leaf_block ctx named cp crc d pfx hpfx hint block rest n
+      have ih := loop_leaf_block ctx named cp crc d pfx hpfx hint hk block rest n
       simp only [List.map_cons, List.cons_append, flatLines]
       unfold structInitLoop
       simp only [hpfx, hpath, pathMatches_self, bind, Except.bind, pure, Except.pure, Bool.not_true, Bool.false_eq_true,
@@ -60,7 +69,8 @@ theorem loop_leaf_block (ctx : ImplContext) (named : Bool) (cp : ChildPath) (crc
         | succ n' =>
           unfold renderChildFragment
           have hdeep : (d < ca.childPath.strs.length - 1) = False := by simp [hlen]
-          simp only [hdeep, decide_false, Bool.false_eq_true, ↓reduceIte, List.drop_one, List.tail_cons, bind, Except.bind, pure, Except.pure]
+          simp only [hdeep, decide_false, Bool.false_eq_true, ↓reduceIte, List.drop_one, List.tail_cons, bind, Except.bind, pure, Except.pure,
+            childLineHint_not_from ctx ca hint hk]
           cases hl : renderStructLine p.2 ctx hint idx none with
           | error e => rfl
           | ok line =>
@@ -96,7 +106,7 @@ def childFragmentSpec (ctx : ImplContext) (named : Bool) (cp : ChildPath) (d : N
 /-- `render_child` over a run of members sitting exactly at that child: one construction, all and only those members,
     the cursor is left at the first foreign member -/
 theorem renderChild_leaf_block (ctx : ImplContext) (named : Bool) (cp : ChildPath) (d : Nat) (pfx : String)
-    (hpfx : cp.getStr (some d) = .ok pfx) (cd : ChildRenderContext) (hint : TypeHint)
+    (hpfx : cp.getStr (some d) = .ok pfx) (cd : ChildRenderContext) (hint : TypeHint) (hk : ctx.kind.isFrom = false)
     (block : List (FieldContainer × Field)) (rest : List FieldContainer) (fuel : Nat)
     (hf : block.length + 3 < fuel) (hb : ∀ p ∈ block, AtLeaf ctx pfx d p)
     (hrest : rest = [] ∨ ∃ fc rs, rest = fc :: rs ∧ pathMatches fc.path pfx = false) :
@@ -119,7 +129,7 @@ theorem renderChild_leaf_block (ctx : ImplContext) (named : Bool) (cp : ChildPat
         simp only
         unfold structInitBlockInner
         simp only [bind, Except.bind, pure, Except.pure]
-        rw [loop_leaf_block ctx named cp (some cd) d pfx hpfx cd.typeHint block rest n' [] 0 hn hb hrest]
+        rw [loop_leaf_block ctx named cp (some cd) d pfx hpfx cd.typeHint hk block rest n' [] 0 hn hb hrest]
         cases hl : flatLines ctx cd.typeHint (block.map (·.2)) 0 with
         | error e => rfl
         | ok lines =>
@@ -167,7 +177,7 @@ theorem loop_top_child_block (ctx : ImplContext) (named : Bool) (hint : TypeHint
   | succ n =>
     unfold renderChildFragment
     simp only [↓reduceIte, hk, hcpa, hget, hfind, hnr, bind, Except.bind, pure, Except.pure]
-    have := renderChild_leaf_block ctx nr ca.childPath 0 pfx hget { ty := cdata.ty, typeHint := cdata.typeHint } hint
+    have := renderChild_leaf_block ctx nr ca.childPath 0 pfx hget { ty := cdata.ty, typeHint := cdata.typeHint } hint (cls_into_not_from hk)
       (p0 :: block) rest n (by simp; omega) hall hrest
     simp only [List.map_cons, List.cons_append] at this
     rw [this]
